@@ -147,12 +147,16 @@ class CQuoter:
         self.sites = []
 
     # ------------------------------------------------------------------
-    def audit(self):
+    def audit(self, ch2=True):
         self._do_quote()
         self._write()
         self._write_utf8_and_pct()
-        self._ch2()
+        if ch2:
+            self._ch2()
         self._skip()
+        from .unquoters import read_bounds
+        for q in (f"{MOD}._Quoter._do_quote", f"{MOD}._Quoter._do_quote_or_skip"):
+            read_bounds(self.ctx, self.model, self.model.func(q), self.res[q])
 
     def _unit_do_quote(self, r):
         # PyUnicode_READ(kind, data, <idx phi>)
